@@ -1218,6 +1218,20 @@ def gen_C19(tier, rng):
         k = c.r("mkliteral B %s %d" % (hexname("q"), rng.randint(0, 1))); c.q("enum %d" % k)
         dist["program"] += 1
         cases.append(c.done(c.id, True))
+    # long enumerations: iterators of the three classes over more than 64 / 128 / 256 items (wide functions)
+    for nv in (7, 8, 9):
+        vs = ["x%d" % i for i in range(1, nv + 1)]
+        big_or = gen.O([gen.L(x) for x in vs])
+        par = gen.L(vs[0])
+        for x in vs[1:]: par = gen.O([gen.A([par, gen.Nn(gen.L(x))]), gen.A([gen.Nn(par), gen.L(x)])])
+        sparse = gen.O([gen.A([gen.L(vs[0]), gen.Nn(gen.L(vs[-1]))]), gen.A([gen.L(vs[2]), gen.L(vs[3])])])
+        for nm, e in (("or", big_or), ("parity", par), ("sparse", gen.A([sparse] + [gen.O([gen.L(x), gen.Nn(gen.L(x))]) for x in vs]))):
+            if nm == "parity" and nv > 8: continue
+            c = Case("c19_w%d%s" % (nv, nm))
+            for r in py_reps(c, e):
+                c.q("obs %d" % r); c.q("enum %d" % r)
+            dist["wide"] += 1
+            cases.append(c.done(c.id, True))
     # parsing through the constructor, exception kinds
     strings = ["a & b", "a | !b & c", "(a", "a &", "", "a b", "{x y} | t", "a ∧ ¬b", "NOT a", "true", "F", "a & & b", "}", "((a))", "v", "a v b"]
     # one or more strings for every error kind the parser can construct (the exception kind is per variant in the wrappers)
